@@ -15,8 +15,7 @@ def handle : Handler
       match Mpir.Ops.Mpf.opnd? ts with
       | some (u, r1) => match Mpir.Ops.Mpf.opnd? r1 with
         | some (v, [.num nb]) =>
-            -- same guard as the harness: 2^24 < n_bits < 2^64 − 63 would make eq.c:90 loop for up to 2^58 iterations
-            if nb < 0 ∨ nb ≥ 2 ^ 64 ∨ (nb > 2 ^ 24 ∧ nb < 2 ^ 64 - 63) ∨ ¬ OpWF u ∨ ¬ OpWF v then none
+            if nb < 0 ∨ nb ≥ 2 ^ 64 ∨ ¬ OpWF u ∨ ¬ OpWF v then none
             else some [boolTok (MpfCmp.eq u v nb.toNat)]
         | _ => none
       | none => none
